@@ -1595,7 +1595,9 @@ type Pattern struct {
 }
 
 func newPattern(pattern string) (*Pattern, error) {
-	r, err := regexp.Compile(pattern)
+	// RFC 7950 Sec 9.4.5: a pattern is an XSD regular expression, which has to
+	// match the whole value
+	r, err := regexp.Compile("^(?:" + pattern + ")$")
 	if err != nil {
 		return nil, err
 	}
